@@ -488,7 +488,9 @@ void edit(std::string &s, Rng &fdp, fz::Stats &st)
         if (s[p + 8] == 1 && p + 18 <= s.size() && s[p + 9] == (char)SYMENGINE_INTEGER && count_field(s, p + 10)
             && (unsigned char)s[p + 10] > 0 && p + 18 + (unsigned char)s[p + 10] <= s.size())
             ints.push_back(p + 10);
-    unsigned kind = fdp.ConsumeIntegralInRange<unsigned>(0, 8);
+    unsigned kind = fdp.ConsumeIntegralInRange<unsigned>(0, 10);
+    if (kind > 8)
+        kind = 1; // sharing references are the format's own invention: edit them three times as often
     switch (kind) {
         case 0: // flip a type code
             if (!addrs.empty()) {
@@ -499,15 +501,27 @@ void edit(std::string &s, Rng &fdp, fz::Stats &st)
                 }
             }
             break;
-        case 1: // redirect a sharing reference
+        case 1: // redirect a sharing reference: field p becomes a reference to an object DEFINED earlier in the stream
             if (addrs.size() >= 2) {
-                size_t p = addrs[fdp.ConsumeIntegralInRange<size_t>(0, addrs.size() - 1)];
-                size_t q = addrs[fdp.ConsumeIntegralInRange<size_t>(0, addrs.size() - 1)];
-                std::string a = s.substr(q, 8);
-                s.replace(p, 8, a);
-                if (fdp.ConsumeBool())
-                    s[p + 8] = 0; // turn a definition into a reference (its body stays in the stream)
-                st.count("edit_reference");
+                size_t ip = fdp.ConsumeIntegralInRange<size_t>(1, addrs.size() - 1);
+                size_t p = addrs[ip];
+                std::vector<size_t> defs;
+                for (size_t k = 0; k < ip; k++)
+                    if (s[addrs[k] + 8] == 1)
+                        defs.push_back(addrs[k]);
+                if (!defs.empty()) {
+                    size_t q = defs[fdp.ConsumeIntegralInRange<size_t>(0, defs.size() - 1)];
+                    std::string a = s.substr(q, 8);
+                    s.replace(p, 8, a);
+                    if (s[p + 8] == 1 && fdp.ConsumeIntegralInRange<int>(0, 3) != 0) {
+                        // turn the definition into a pure reference; in half of the cases its old head (type code) is
+                        // removed too so that what follows is less likely to be garbage
+                        s[p + 8] = 0;
+                        if (fdp.ConsumeBool() && p + 10 <= s.size())
+                            s.erase(p + 9, 1);
+                    }
+                    st.count("edit_reference");
+                }
             }
             break;
         case 2: // first_seen byte
